@@ -160,6 +160,18 @@ theorem recovery_announced_callbacks (o : Oracle V E) (caught : CbOutcome → Bo
   rw [emits_recovery o e now v x hx]
   simp [mkMsg]
 
+/-- Callbacks that call the funnel of OTHER parameters (a following module's `update_<param>` assigning its own
+parameter, or `autoupdate`): for every history of top-level calls, every tree of such callbacks (depth 1), every outcome
+of every callback, and EVERY parameter `q` — source or follower — replaying the messages of `q` in the stream gives
+what the cache holds for `q`. -/
+theorem replay_eq_cache_reentrant (o : Oracle V E) (ex : V → X) (h : ExportExact o ex) (caught : CbOutcome → Bool)
+    (hc : ∀ oc, caught oc = true) (es : Nat → Entry V E) (xs : List (MEv V E)) (q : Nat) :
+    replay ((es q).ve.map ex) ((projM q (runM o caught es xs).msgs).map (fun m => m.ve.map ex)) =
+      ((runM o caught es xs).es q).ve.map ex := by
+  obtain ⟨evs, h1, h2⟩ := runM_proj o caught hc q es xs
+  rw [h1, h2]
+  exact replay_runR o ex h (es q) evs
+
 /-- The hypothesis is needed: if one outcome is not caught (e.g. only `TypeError` is), a callback ending that way
 makes the funnel store the new state without a message — a lost value and a lost recovery. -/
 theorem callback_escape_breaks (caught : CbOutcome → Bool) (oc : CbOutcome) (hesc : caught oc = false) :
@@ -366,6 +378,12 @@ theorem load_parameters_fails :
     (∃ (e : Entry Nat Nat) (v : Nat), ¬ RecoveryAnnounced (fun s => s matches .err _) e.ve [⟨[], (poke e v).ve⟩]) :=
   ⟨⟨exE, 7, by simp [Reconstructs, replay, poke, Entry.ve, exE]⟩,
    ⟨⟨5, some 1, 100, 10⟩, 5, by simp [RecoveryAnnounced, poke, Entry.ve]⟩⟩
+
+/-- source parameter 0 with two followers: the first assigns parameter 1 and then raises, the second hands the value
+to parameter 2; the messages come in the order follower 1, follower 2, source -/
+example : (announceM exO (catches Frappy.Generated.C05.callbackCaught) (fun _ => exE) 0 101 (.val 6)
+      [⟨some ⟨1, 101, .val 6, []⟩, .other⟩, ⟨some ⟨2, 101, .val 7, [.typeError]⟩, .ok⟩]).msgs.map (fun m => (m.1, m.2.ve)) =
+    [(1, .val 6), (2, .val 7), (0, .val 6)] := by decide
 
 def exCfg : Cfg Nat Nat := ⟨exO, [1, 2], 1⟩
 def exProgs : Tid → List (Op Nat Nat)
